@@ -33,11 +33,12 @@ structure HonestFor (c : Cfg) (key : Dig) (vrf : VrfTable) (t : CRoot) (u : Byte
   /-- a leaf at a fresh label of `u` is one of those -/
   fresh_only : ∀ ver l lf, vrf.get? ⟨u, true, ver⟩ = some l → lf ∈ t.leaves → lf.lbl = l.bits →
       ∃ v ∈ vs, v.version = ver ∧ lf.value = c.commit v.value (c.nonce key l ver v.value) ∧ lf.ep = v.epoch
-  /-- a stale leaf of version `ver` exists iff `ver` has been superseded; it carries the stale value
-  and the epoch of the superseding version -/
-  stale_iff : ∀ ver l, vrf.get? ⟨u, false, ver⟩ = some l →
+  /-- a stale leaf of version `ver ≥ 1` exists iff `ver` has been superseded; it carries the stale value
+  and the epoch of the superseding version.  (Version 0 does not exist and the verifiers never query
+  its stale label: lookup needs `version ≠ 0`, history uses `version - 1` only for `version ≥ 2`.) -/
+  stale_iff : ∀ ver l, 1 ≤ ver → vrf.get? ⟨u, false, ver⟩ = some l →
       ((∃ lf ∈ t.leaves, lf.lbl = l.bits) ↔ ∃ w ∈ vs, w.version = ver + 1)
-  stale_stamp : ∀ ver l lf, vrf.get? ⟨u, false, ver⟩ = some l → lf ∈ t.leaves → lf.lbl = l.bits →
+  stale_stamp : ∀ ver l lf, 1 ≤ ver → vrf.get? ⟨u, false, ver⟩ = some l → lf ∈ t.leaves → lf.lbl = l.bits →
       lf.value = c.staleValue ∧ ∃ w ∈ vs, w.version = ver + 1 ∧ lf.ep = w.epoch
 
 /-! ### consequences of `VersionsOK` -/
@@ -106,12 +107,12 @@ theorem bound_version (hc : c.Lawful) (hfresh : C05.EmptyLabelFresh c) (hv : Vrf
 /-- an accepted stale-label existence proof with epoch `ep`: the next version exists and was
 published in `ep` -/
 theorem bound_stale (hc : c.Lawful) (h256 : C05.Leaves256 t) (hon : HonestFor c key vrf t u vs)
-    {ep : Nat} {ver : Nat} {pf : VrfProof} {mp : MembershipProof}
+    {ep : Nat} {ver : Nat} (hver1 : 1 ≤ ver) {pf : VrfProof} {mp : MembershipProof}
     (h : Verify.existenceWithCommitment c vrf (t.rootHash c) u c.staleValue ep false ver pf mp = .ok ()) :
     ∃ w ∈ vs, w.version = ver + 1 ∧ ep = w.epoch := by
   obtain ⟨h1, h2, h3⟩ := Snd.existenceWithCommitment_ok h
   obtain ⟨lf, hlf, hl, -, hep⟩ := Snd.leaf_of_membership c hc t h256 mp _ _ h1 h3
-  obtain ⟨-, w, hw, hver, hep'⟩ := hon.stale_stamp ver mp.label lf h2 hlf hl
+  obtain ⟨-, w, hw, hver, hep'⟩ := hon.stale_stamp ver mp.label lf hver1 h2 hlf hl
   exact ⟨w, hw, hver, hep.symm.trans hep'⟩
 
 /-- an accepted fresh-label non-existence proof: that version does not exist -/
@@ -131,12 +132,12 @@ theorem absent_fresh (hc : c.Lawful) (hfresh : C05.EmptyLabelFresh c) (hv : VrfO
 /-- an accepted stale-label non-existence proof: that version has not been superseded -/
 theorem absent_stale (hc : c.Lawful) (hfresh : C05.EmptyLabelFresh c) (hv : VrfOK vrf)
     (hwf : t.WF) (h256 : C05.Leaves256 t) (hon : HonestFor c key vrf t u vs)
-    {ver : Nat} {pf : VrfProof} {np : NonMembershipProof}
+    {ver : Nat} (hver1 : 1 ≤ ver) {pf : VrfProof} {np : NonMembershipProof}
     (h : Verify.nonexistence c vrf (t.rootHash c) u false ver pf np = .ok ()) :
     ∀ w ∈ vs, w.version ≠ ver + 1 := by
   obtain ⟨h2, h3⟩ := Snd.nonexistence_ok h
   intro w hw hver
-  obtain ⟨lf, hlf, hl⟩ := (hon.stale_iff ver np.label h2).mpr ⟨w, hw, hver⟩
+  obtain ⟨lf, hlf, hl⟩ := (hon.stale_iff ver np.label hver1 h2).mpr ⟨w, hw, hver⟩
   exact Snd.no_leaf_of_nonmembership c hc hfresh t hwf h256 np (hv.len _ _ h2) h3 lf hlf hl
 
 end Bound
@@ -177,9 +178,9 @@ theorem lookup_sound (c : Cfg) (hc : c.Lawful) (hfresh : C05.EmptyLabelFresh c)
     (E : Nat) (π : LookupProof) (r : Verify.VerifyResult)
     (hacc : Verify.lookup c vrf (t.rootHash c) E u π = .ok r) :
     ∃ last, vs.getLast? = some last ∧ r = ⟨last.epoch, last.version, last.value⟩ := by
-  obtain ⟨-, -, hr, hex, -, hnon⟩ := lookup_ok hacc
+  obtain ⟨-, hne0, hr, hex, -, hnon⟩ := lookup_ok hacc
   obtain ⟨v, hmem, hver, hval, hep⟩ := bound_strict hc h256 hon hex
-  have hno := absent_stale hc hfresh hv hwf h256 hon hnon
+  have hno := absent_stale hc hfresh hv hwf h256 hon (Nat.pos_of_ne_zero hne0) hnon
   rw [← hver] at hno
   refine ⟨v, hon.versions.getLast_of_no_succ hmem hno, ?_⟩
   rw [hr, hver, hval, hep]
@@ -200,5 +201,163 @@ theorem lookup_version_gt_epoch (c : Cfg) (vrf : VrfTable) (root : Dig) (E : Nat
     (h : π.version > E) : Verify.lookup c vrf root E u π = .error .lookup := by
   unfold Verify.lookup
   rw [if_pos h]
+
+/-! ## non-vacuity: the hypotheses hold together, and a proof is accepted -/
+namespace Ex
+open NodeLabel
+
+def u : Bytes := [1]
+def bF1 : BitStr := List.replicate 256 false
+def bS1 : BitStr := true :: List.replicate 255 false
+def bF2 : BitStr := false :: true :: List.replicate 254 false
+def bS2 : BitStr := true :: true :: List.replicate 254 false
+def bF3 : BitStr := false :: false :: true :: List.replicate 253 false
+/-- the labels of fresh(1), stale(1), fresh(2), stale(2), fresh(3) -/
+def vrf : VrfTable :=
+  [(⟨u, true, 1⟩, ofBits bF1), (⟨u, false, 1⟩, ofBits bS1), (⟨u, true, 2⟩, ofBits bF2),
+   (⟨u, false, 2⟩, ofBits bS2), (⟨u, true, 3⟩, ofBits bF3)]
+/-- two versions, published in epochs 1 and 3 -/
+def vs : List Spec.Ver := [⟨1, [10], 1⟩, ⟨2, [20], 3⟩]
+def key : Dig := .raw [7]
+def cfg : Cfg := Cfg.whatsappV1
+/-- the canonical tree over the leaves the specification prescribes: fresh(1), stale(1), fresh(2) -/
+def t : CRoot := CRoot.ofLeaves (Spec.leaves cfg key vrf [(u, vs)])
+
+def lfF1 : Leaf := ⟨bF1, cfg.commit [10] (cfg.nonce key (ofBits bF1) 1 [10]), 1⟩
+def lfS1 : Leaf := ⟨bS1, cfg.staleValue, 3⟩
+def lfF2 : Leaf := ⟨bF2, cfg.commit [20] (cfg.nonce key (ofBits bF2) 2 [20]), 3⟩
+
+theorem t_leaves : t.leaves = [lfF1, lfF2, lfS1] := by decide +kernel
+
+theorem bitsF1 : (ofBits bF1).bits = bF1 := C17.bits_ofBits _ (by decide +kernel)
+theorem bitsS1 : (ofBits bS1).bits = bS1 := C17.bits_ofBits _ (by decide +kernel)
+theorem bitsF2 : (ofBits bF2).bits = bF2 := C17.bits_ofBits _ (by decide +kernel)
+theorem bitsS2 : (ofBits bS2).bits = bS2 := C17.bits_ofBits _ (by decide +kernel)
+
+theorem get_cases (k : VrfClaim) (l : NodeLabel) (h : vrf.get? k = some l) :
+    (k = ⟨u, true, 1⟩ ∧ l = ofBits bF1) ∨ (k = ⟨u, false, 1⟩ ∧ l = ofBits bS1) ∨
+    (k = ⟨u, true, 2⟩ ∧ l = ofBits bF2) ∨ (k = ⟨u, false, 2⟩ ∧ l = ofBits bS2) ∨
+    (k = ⟨u, true, 3⟩ ∧ l = ofBits bF3) := by
+  simp only [vrf, VrfTable.get?] at h
+  split at h
+  · rename_i h1; injection h with h; exact Or.inl ⟨h1.symm, h.symm⟩
+  split at h
+  · rename_i h1; injection h with h; exact Or.inr (Or.inl ⟨h1.symm, h.symm⟩)
+  split at h
+  · rename_i h1; injection h with h; exact Or.inr (Or.inr (Or.inl ⟨h1.symm, h.symm⟩))
+  split at h
+  · rename_i h1; injection h with h; exact Or.inr (Or.inr (Or.inr (Or.inl ⟨h1.symm, h.symm⟩)))
+  split at h
+  · rename_i h1; injection h with h; exact Or.inr (Or.inr (Or.inr (Or.inr ⟨h1.symm, h.symm⟩)))
+  cases h
+
+theorem mem_cases (lf : Leaf) (h : lf ∈ t.leaves) : lf = lfF1 ∨ lf = lfF2 ∨ lf = lfS1 := by
+  rw [t_leaves] at h
+  simpa using h
+
+theorem memF1 : lfF1 ∈ t.leaves := by rw [t_leaves]; simp
+theorem memF2 : lfF2 ∈ t.leaves := by rw [t_leaves]; simp
+theorem memS1 : lfS1 ∈ t.leaves := by rw [t_leaves]; simp
+
+theorem vrfOK : VrfOK vrf := by
+  refine ⟨?_, ?_⟩
+  · intro k k' l h1 h2
+    rcases get_cases k l h1 with ⟨rfl, rfl⟩ | ⟨rfl, rfl⟩ | ⟨rfl, rfl⟩ | ⟨rfl, rfl⟩ | ⟨rfl, rfl⟩ <;>
+      rcases get_cases k' _ h2 with ⟨rfl, h⟩ | ⟨rfl, h⟩ | ⟨rfl, h⟩ | ⟨rfl, h⟩ | ⟨rfl, h⟩ <;>
+      first | rfl | exact absurd h (by decide +kernel)
+  · intro k l h
+    rcases get_cases k l h with ⟨-, rfl⟩ | ⟨-, rfl⟩ | ⟨-, rfl⟩ | ⟨-, rfl⟩ | ⟨-, rfl⟩ <;> decide +kernel
+
+theorem wf : t.WF := by decide +kernel
+
+theorem leaves256 : C05.Leaves256 t := by
+  intro lf h
+  rcases mem_cases lf h with rfl | rfl | rfl <;> decide +kernel
+
+/-- the tree is honest for `u` with the two versions -/
+theorem honest : HonestFor cfg key vrf t u vs := by
+  refine ⟨⟨by decide, by decide⟩, ?_, ?_, ?_, ?_⟩
+  · intro v hv
+    simp only [vs, List.mem_cons, List.not_mem_nil, or_false] at hv
+    rcases hv with rfl | rfl
+    · exact ⟨ofBits bF1, by decide +kernel, by rw [bitsF1]; exact memF1⟩
+    · exact ⟨ofBits bF2, by decide +kernel, by rw [bitsF2]; exact memF2⟩
+  · intro ver l lf hg hm hl
+    rcases get_cases _ l hg with ⟨hk, rfl⟩ | ⟨hk, rfl⟩ | ⟨hk, rfl⟩ | ⟨hk, rfl⟩ | ⟨hk, rfl⟩
+    · injection hk with _ _ hver
+      subst hver
+      rw [bitsF1] at hl
+      rcases mem_cases lf hm with rfl | rfl | rfl
+      · exact ⟨⟨1, [10], 1⟩, by simp [vs], rfl, rfl, rfl⟩
+      · exact absurd hl (by decide +kernel)
+      · exact absurd hl (by decide +kernel)
+    · injection hk with _ hf _; cases hf
+    · injection hk with _ _ hver
+      subst hver
+      rw [bitsF2] at hl
+      rcases mem_cases lf hm with rfl | rfl | rfl
+      · exact absurd hl (by decide +kernel)
+      · exact ⟨⟨2, [20], 3⟩, by simp [vs], rfl, rfl, rfl⟩
+      · exact absurd hl (by decide +kernel)
+    · injection hk with _ hf _; cases hf
+    · injection hk with _ _ hver
+      subst hver
+      rw [C17.bits_ofBits bF3 (by decide +kernel)] at hl
+      rcases mem_cases lf hm with rfl | rfl | rfl <;> exact absurd hl (by decide +kernel)
+  · intro ver l _ hg
+    rcases get_cases _ l hg with ⟨hk, rfl⟩ | ⟨hk, rfl⟩ | ⟨hk, rfl⟩ | ⟨hk, rfl⟩ | ⟨hk, rfl⟩
+    · injection hk with _ hf _; cases hf
+    · injection hk with _ _ hver
+      subst hver
+      exact ⟨fun _ => ⟨⟨2, [20], 3⟩, by simp [vs], rfl⟩,
+        fun _ => ⟨lfS1, memS1, by rw [bitsS1]; rfl⟩⟩
+    · injection hk with _ hf _; cases hf
+    · injection hk with _ _ hver
+      subst hver
+      rw [bitsS2]
+      constructor
+      · rintro ⟨lf, hm, hl⟩
+        rcases mem_cases lf hm with rfl | rfl | rfl <;> exact absurd hl (by decide +kernel)
+      · rintro ⟨w, hw, hwv⟩
+        simp only [vs, List.mem_cons, List.not_mem_nil, or_false] at hw
+        rcases hw with rfl | rfl <;> exact absurd hwv (by decide)
+    · injection hk with _ hf _; cases hf
+  · intro ver l lf _ hg hm hl
+    rcases get_cases _ l hg with ⟨hk, rfl⟩ | ⟨hk, rfl⟩ | ⟨hk, rfl⟩ | ⟨hk, rfl⟩ | ⟨hk, rfl⟩
+    · injection hk with _ hf _; cases hf
+    · injection hk with _ _ hver
+      subst hver
+      rw [bitsS1] at hl
+      rcases mem_cases lf hm with rfl | rfl | rfl
+      · exact absurd hl (by decide +kernel)
+      · exact absurd hl (by decide +kernel)
+      · exact ⟨rfl, ⟨2, [20], 3⟩, by simp [vs], rfl, rfl⟩
+    · injection hk with _ hf _; cases hf
+    · injection hk with _ _ hver
+      subst hver
+      rw [bitsS2] at hl
+      rcases mem_cases lf hm with rfl | rfl | rfl <;> exact absurd hl (by decide +kernel)
+    · injection hk with _ hf _; cases hf
+
+/-- decidable equality of verifier outcomes, for the closed examples only -/
+scoped instance exceptDecEq {ε α : Type} [DecidableEq ε] [DecidableEq α] : DecidableEq (Except ε α)
+  | .ok a, .ok b => if h : a = b then isTrue (h ▸ rfl) else isFalse (fun e => h (Except.ok.inj e))
+  | .error a, .error b => if h : a = b then isTrue (h ▸ rfl) else isFalse (fun e => h (Except.error.inj e))
+  | .ok _, .error _ => isFalse (fun e => nomatch e)
+  | .error _, .ok _ => isFalse (fun e => nomatch e)
+
+/-- the honest lookup proof at epoch 3 -/
+def lookupProof : LookupProof :=
+  ⟨3, [20], 2, some ⟨u, true, 2⟩, t.genMembership cfg bF2, some ⟨u, true, 2⟩, t.genMembership cfg bF2,
+    some ⟨u, false, 2⟩, t.genNonMembership cfg bS2, cfg.nonce key (ofBits bF2) 2 [20]⟩
+
+/-- all hypotheses of `lookup_sound` hold together, including acceptance -/
+example : cfg.Lawful ∧ C05.EmptyLabelFresh cfg ∧ VrfOK vrf ∧ t.WF ∧ C05.Leaves256 t ∧
+    HonestFor cfg key vrf t u vs ∧
+    Verify.lookup cfg vrf (t.rootHash cfg) 3 u lookupProof = .ok ⟨3, 2, [20]⟩ :=
+  ⟨Cfg.whatsappV1_lawful, C05.emptyLabelFresh_whatsappV1, vrfOK, wf, leaves256, honest,
+    by decide +kernel⟩
+
+end Ex
 
 end Akd.C06
